@@ -498,6 +498,23 @@ def oracle(env):
                                   "exponent_under_estimates": sunder}
     env.sample({"lower": strs[-1], "compressed": res[-1][1].get("text") if res[-1][0] == "ok" else None})
 
+    # ---- every dictionary word: its code is two compression characters that decode to the word ----
+    # (exhaustive: a slip at one index - the first two-digit index, the last one - hits one word in 23 000)
+    compset = set(ENC.compression)
+    nwords = 0
+    for w in D.lookup:
+        nwords += 1
+        try:
+            code = D.word_index(w)
+            back = H.uncompress_dict(code) if isinstance(code, str) else None
+        except Exception as e:  # noqa: BLE001
+            code, back = None, f"{type(e).__name__}: {e}"
+        if not (isinstance(code, str) and len(code) == 2 and set(code) <= compset and back == w):
+            env.fail({"kind": "dict-word", "word": w, "code": code},
+                     f"word_index gives {code!r}, which decodes to {back!r}", cls="dict-word-code")
+    env.count(nwords, (f"word:{w}" for w in D.lookup))
+    notes["dictionary_words_swept"] = nwords
+
     # ---- printable ASCII / dictionary words through øD ----------------------
     words = [w for w in D.contents if w and all(c in ASCII_OK for c in w)]
     dstrs = dict_strings(rng, words, env.budget(600, 6000))
